@@ -89,7 +89,9 @@ fn recover_bytes(enc: &[Vec<u8>], via_star: bool) -> Result<Result<Vec<u8>, Stri
         None => return Ok(Err("rejected at decode".into())),
       }
     }
-    Ok(adss::recover(&v).map(|c| c.get_message()).map_err(|e| e.to_string()))
+    // (the shape of the iterator is a function of the collection, so replay is unaffected)
+    let ishape = (v.len() as u8).wrapping_mul(3).wrapping_add(enc.first().map(|e| e.len() as u8).unwrap_or(0));
+    Ok(adss::recover(shaped(ishape, &v)).map(|c| c.get_message()).map_err(|e| e.to_string()))
   }
 }
 
